@@ -193,7 +193,7 @@ def run(ctx):
     s4 = suite(ctx, "genc-history-revisit", E.history_revisit_cases(rng, 60 if quick else 2000))
     s5 = suite(ctx, "genc-parallel-done", E.parallel_done_cases(rng, 50 if quick else 1500))
     ex = [(c, e) for c, e in E.exhaustive_cases("quick" if quick else "thorough")]
-    if quick: ex = rng.sample(ex, min(len(ex), 160))
+    ex = rng.sample(ex, min(len(ex), 160 if quick else 4000))      # (each case is a generated C file compiled by gcc: the whole family is out of reach)
     s2 = suite(ctx, "genc-exhaustive", ex)
     ctx.sample({"suite": "genc-random"})
     ctx.coverage["evaluations"] = s1["inputs"] + s2["inputs"] + s3["inputs"] + s4["inputs"] + s5["inputs"]
